@@ -689,10 +689,10 @@ func posClass(k *kase) string {
 }
 
 func main() {
-	r := vx.Start("C22", "exploration")
+	r := vx.Start("C22", "model_checking")
 	r.QuietStderr()
 	setup()
-	r.Rule = "every case = (shape: single / group of 2 / group of 3) x (member position) x (one admission clause violated, or its just-valid twin: signature, already in pool, on chain, height/time expiry edges, fee one unit below the minimum incl. a >1000-byte member and the tiered rate at the pool-size thresholds, two kinds of invalid recipient, sender at / one below the per-sender limit, blacklisted sender / recipient / EVM contract / EVM transfer target, eth-signed nonce below current / current / ahead / already pending; the expiry edges once more on groups whose 32-byte header hash is a well-formed protobuf message, the nonce of member 0 being searched for that) x (pool empty / one below capacity); thorough tier: additionally every pair of violating modifications at every pair of positions; one fresh mempool module per case, submission by EventTx. distinct = distinct (clause, position class, reply) outcome classes"
+	r.Rule = "pipeline part: every interleaving (BFS over stage histories, depth 7/8) of the three admission stages (basic checks, signature stage, remote stage with the final push) of two submissions from {T, a copy of T with an altered signature, another transaction U} with RemoveTxs(T) and AddBlock{T} on a real module; after every step the pool holds only verifiable, unique, off-chain transactions and a forged copy is never answered ok. Flat part: every case = (shape: single / group of 2 / group of 3) x (member position) x (one admission clause violated, or its just-valid twin: signature, already in pool, on chain, height/time expiry edges, fee one unit below the minimum incl. a >1000-byte member and the tiered rate at the pool-size thresholds, two kinds of invalid recipient, sender at / one below the per-sender limit, blacklisted sender / recipient / EVM contract / EVM transfer target, eth-signed nonce below current / current / ahead / already pending; the expiry edges once more on groups whose 32-byte header hash is a well-formed protobuf message, the nonce of member 0 being searched for that) x (pool empty / one below capacity); thorough tier: additionally every pair of violating modifications at every pair of positions; one fresh mempool module per case, submission by EventTx. distinct = distinct (clause, position class, reply) outcome classes"
 	r.Assume = []string{
 		"blockchain (duplicate-on-chain query, last header), execs (CheckTx) and rpc (current eth nonce) are scripted responders on the real queue; what the real modules answer is outside this property",
 		"only the direction stated by the property is a violation (entered the pool although a clause is violated, or something else entered); a valid submission that is refused is reported as a vacuous twin (exit 2), not as a violation",
@@ -838,5 +838,6 @@ func main() {
 	r.Floors["clauses"] = 30
 	r.Floors["entered"] = 60
 	r.Floors["refused"] = 150
+	pipelinePart(r)
 	r.Finish()
 }
